@@ -93,7 +93,7 @@ fn main() {
     let mut out = BufWriter::new(std::fs::File::create(arg(&args, "--events").expect("--events")).unwrap());
     let mut script = arg(&args, "--script-out").map(|p| BufWriter::new(std::fs::File::create(p).unwrap()));
     let mut rng = StdRng::seed_from_u64(seed);
-    let overhead = lru_mem::entry_size(&TKey::probe(1), &TVal { tok: 0, heap: 0, clone_delta: 0 });
+    let overhead = lru_mem::entry_size(&TKey::probe(1), &TVal::raw(0, 0, 0));
     let mut session = Session::new(cfg.clone());
     let mut leaked = false;
     let mut in_segment = 0u64;
